@@ -5,6 +5,7 @@ package verifharness
 import (
 	"fmt"
 	"math/rand/v2"
+	"os"
 	"strings"
 	"testing"
 	"testing/synctest"
@@ -69,6 +70,12 @@ func c10Gen(rng *rand.Rand, idx int, thorough bool) c10Scenario {
 				// a deploy that is still waiting for its targets to become healthy while the rollout command runs and returns
 				"deploy+rollout-stop", "deploy+set100", "deploy+set0+allow"}))
 		}
+	case idx%8 == 7:
+		// many clients at the same instant: each decision is still a function of its own cookie only
+		sc.Kind = "concurrent"
+		for i := 0; i < 48; i++ {
+			sc.Values = append(sc.Values, c10Value(rng))
+		}
 	case idx%4 == 2:
 		sc.Kind = "hostile"
 		for i := 0; i < 12; i++ {
@@ -112,6 +119,9 @@ func TestC10(t *testing.T) {
 	n := run.N(48, 1600)
 	for i := 0; i < n; i++ {
 		sc := c10Gen(run.Rand(i), i, run.Thorough())
+		if only := os.Getenv("VERIF_C10_ONLY_KIND"); only != "" && sc.Kind != only {
+			continue // the pass under the race detector runs the concurrent scenarios only
+		}
 		if !run.Mine(i, sc) {
 			continue
 		}
@@ -260,6 +270,43 @@ func c10Run(t *testing.T, run *Run, sc c10Scenario, rng *rand.Rand) {
 		}
 		run.Class(fmt.Sprintf("%s|allow=%d|included_by_50=%d", sc.Kind, len(sc.Allow), inc50*10/len(sc.Values)))
 		run.Sample(map[string]any{"kind": sc.Kind, "values": len(sc.Values), "allow": sc.Allow, "percentages": 101, "requests": nreq})
+	case "concurrent":
+		for _, p := range []int{50, 20, 80} {
+			if !mustSet(p, nil) {
+				return
+			}
+			base := map[string]string{}
+			for _, v := range sc.Values {
+				base[v] = side("kamal-rollout=" + v)
+			}
+			for round := 0; round < 4; round++ {
+				at := w.Now() + 10*time.Millisecond
+				ids := map[string]string{}
+				for i, v := range sc.Values {
+					nreq++
+					id := fmt.Sprintf("cc%d-%d-%d-%d", p, round, i, nreq)
+					ids[id] = v
+					w.GoReq(at, Req{ID: id, Host: "c10.example", Path: "/", Hdr: [][2]string{{"Cookie", "kamal-rollout=" + v}}})
+				}
+				w.Wait()
+				for _, r := range w.RespLog() {
+					v, mine := ids[r.ID]
+					if !mine {
+						continue
+					}
+					got := "!"
+					if r.Status == 200 && r.Target != "" {
+						got = r.Target[:1]
+					}
+					if got != base[v] {
+						fail("decision-depends-on-concurrent-requests", "value %q goes to %q at %d%% when asked alone, but went to %q when %d clients asked at the same instant", v, base[v], p, got, len(sc.Values))
+						return
+					}
+				}
+			}
+			run.Class(fmt.Sprintf("concurrent|p=%d", p))
+		}
+		run.Sample(map[string]any{"kind": "concurrent", "values": len(sc.Values)})
 	case "share":
 		vals := make([]string, sc.N)
 		for i := range vals {
